@@ -19,19 +19,19 @@
 EXTENDS Replies, Extract, Json, IOUtils, CSV
 
 Trace == ndJsonDeserialize(IOEnv.VERIF_TRACE)
-VARIABLES l, filt, x, nmsg, hdr, toReport, toWriter, cur, pend, cbQ, wireQ, pser, issued, written, outstanding,
+VARIABLES l, filt, rr, x, nmsg, hdr, toReport, toWriter, cur, pend, cbQ, wireQ, pser, issued, written, outstanding,
           matched, expectRet, returned, activeCb, stopping, diverged, bad
-vars == <<l, filt, x, nmsg, hdr, toReport, toWriter, cur, pend, cbQ, wireQ, pser, issued, written, outstanding,
+vars == <<l, filt, rr, x, nmsg, hdr, toReport, toWriter, cur, pend, cbQ, wireQ, pser, issued, written, outstanding,
           matched, expectRet, returned, activeCb, stopping, diverged, bad>>
 
 None == [kind |-> "none"]
-Fresh == /\ x = InitX /\ nmsg = 0 /\ hdr = None /\ toReport = <<>> /\ toWriter = <<>> /\ cur = None /\ pend = "none"
+Fresh == /\ rr = {} /\ x = InitX /\ nmsg = 0 /\ hdr = None /\ toReport = <<>> /\ toWriter = <<>> /\ cur = None /\ pend = "none"
          /\ cbQ = <<>> /\ wireQ = <<>> /\ pser = 0 /\ issued = <<>> /\ written = <<>> /\ outstanding = <<>>
          /\ matched = <<>> /\ expectRet = <<>> /\ returned = {} /\ activeCb = {} /\ stopping = FALSE /\ diverged = FALSE
 Init == l = 1 /\ Fresh /\ bad = <<>> /\ filt = TRUE
 E == Trace[l]
 Flag(ok, what) == IF ok \/ diverged THEN bad ELSE Append(bad, [l |-> l, c |-> E.c, what |-> what])
-Same == UNCHANGED <<filt, x, nmsg, hdr, toReport, toWriter, cur, pend, cbQ, wireQ, pser, issued, written, outstanding,
+Same == UNCHANGED <<filt, rr, x, nmsg, hdr, toReport, toWriter, cur, pend, cbQ, wireQ, pser, issued, written, outstanding,
                     matched, expectRet, returned, activeCb, stopping>>
 Fail(what) == bad' = Flag(FALSE, what) /\ diverged' = TRUE /\ Same
 Ok == bad' = bad /\ diverged' = diverged
@@ -57,7 +57,7 @@ AsM(o, n) == [n |-> n, id |-> o.id, ver |-> o.ver, phone |-> o.phone, digits |->
 \* the server option WithHasSubcontract: TRUE (default) = parts of a sub-packaged message are silent until the message is complete;
 \* FALSE = every part is reported, answered and passed to the write callback like a message of its own
 Reset == /\ E.ev = "reset" /\ bad' = bad /\ filt' = (IF "filter" \in DOMAIN E THEN E.filter ELSE TRUE)
-         /\ x' = InitX /\ nmsg' = 0 /\ hdr' = None /\ toReport' = <<>> /\ toWriter' = <<>> /\ cur' = None /\ pend' = "none"
+         /\ rr' = {} /\ x' = InitX /\ nmsg' = 0 /\ hdr' = None /\ toReport' = <<>> /\ toWriter' = <<>> /\ cur' = None /\ pend' = "none"
          /\ cbQ' = <<>> /\ wireQ' = <<>> /\ pser' = 0 /\ issued' = <<>> /\ written' = <<>> /\ outstanding' = <<>>
          /\ matched' = <<>> /\ expectRet' = <<>> /\ returned' = {} /\ activeCb' = {} /\ stopping' = FALSE /\ diverged' = FALSE
 Send == /\ E.ev = "send"
@@ -73,6 +73,7 @@ Send == /\ E.ev = "send"
               /\ toReport' = toReport \o rp
               /\ toWriter' = toWriter \o tw          \* msgChan order = stream order (parts included, unreported)
               /\ hdr' = IF hdr.kind = "none" /\ Len(tw) > 0 THEN tw[1] ELSE hdr
+              /\ rr' = rr \cup {[serial |-> q.serial, body |-> q.body] : q \in r.rereq}   \* transfers idle for more than 5 s: re-requested
               /\ UNCHANGED <<filt, cur, pend, cbQ, wireQ, pser, issued, written, outstanding, matched, expectRet, returned, activeCb, stopping>>
               /\ Ok
 \* reader callbacks: the next extracted message, with its own content; then it is handed to the writer
@@ -82,7 +83,7 @@ ReadCb == /\ E.ev \in {"readcb", "unsupported"}
                   IF ~(Expect(o) = E.ev /\ o.id = E.id /\ o.serial = E.serial /\ Mat(o.body) = Mat(E.body) /\ o.digits = E.digits)
                   THEN Fail("ReadCbMatch")
                   ELSE /\ toReport' = Tail(toReport) /\ Ok
-                       /\ UNCHANGED <<filt, x, nmsg, hdr, toWriter, cur, pend, cbQ, wireQ, pser, issued, written, outstanding, matched, expectRet, returned, activeCb, stopping>>
+                       /\ UNCHANGED <<filt, rr, x, nmsg, hdr, toWriter, cur, pend, cbQ, wireQ, pser, issued, written, outstanding, matched, expectRet, returned, activeCb, stopping>>
 \* msgChan: everything supported goes to the writer in stream order (parts included)
 \* (modelled at dequeue: the writer's w_msg names the message; it must be the next one of the stream)
 WMsg == /\ E.ev = "w_msg"
@@ -92,7 +93,7 @@ WMsg == /\ E.ev = "w_msg"
                         IF ~(o.id = E.id /\ o.serial = E.serial) THEN Fail("MsgChanOrder")
                         ELSE IF \E i \in 1..Len(toReport) : toReport[i].n = o.n THEN Fail("HandledBeforeReadCallback")
                         ELSE /\ toWriter' = Tail(toWriter) /\ cur' = o /\ pend' = Decide(o) /\ Ok
-                             /\ UNCHANGED <<filt, x, nmsg, hdr, toReport, cbQ, wireQ, pser, issued, written, outstanding, matched, expectRet, returned, activeCb, stopping>>
+                             /\ UNCHANGED <<filt, rr, x, nmsg, hdr, toReport, cbQ, wireQ, pser, issued, written, outstanding, matched, expectRet, returned, activeCb, stopping>>
 ReplyBegin == /\ E.ev = "reply_begin"
               /\ IF ~(pend = "reply" /\ cur.serial = E.serial) THEN Fail("ReplyUnexpected")
                  ELSE LET fr == ReplyFrame(cur, pser) has == ReplyFor(cur).has IN   \* ~has: body refused (0x0102/2019 too short): logged, nothing written
@@ -100,26 +101,37 @@ ReplyBegin == /\ E.ev = "reply_begin"
                       /\ wireQ' = (IF has THEN Append(wireQ, fr) ELSE wireQ)
                       /\ pser' = (IF has THEN (pser + 1) % 65536 ELSE pser)
                       /\ pend' = "none" /\ Ok
-                      /\ UNCHANGED <<filt, x, nmsg, hdr, toReport, toWriter, cur, issued, written, outstanding, matched, expectRet, returned, activeCb, stopping>>
+                      /\ UNCHANGED <<filt, rr, x, nmsg, hdr, toReport, toWriter, cur, issued, written, outstanding, matched, expectRet, returned, activeCb, stopping>>
 WriteCb == /\ E.ev = "writecb"
            /\ IF E.active
               THEN (IF E.pseq \notin activeCb THEN Fail("ActiveCallbackUnexpected")
                     ELSE /\ activeCb' = activeCb \ {E.pseq} /\ Ok
-                         /\ UNCHANGED <<filt, x, nmsg, hdr, toReport, toWriter, cur, pend, cbQ, wireQ, pser, issued, written, outstanding, matched, expectRet, returned, stopping>>)
+                         /\ UNCHANGED <<filt, rr, x, nmsg, hdr, toReport, toWriter, cur, pend, cbQ, wireQ, pser, issued, written, outstanding, matched, expectRet, returned, stopping>>)
               ELSE (IF cbQ = <<>> THEN Fail("WriteCallbackUnexpected")
                     ELSE IF Mat(Head(cbQ)) # Mat(E.data) THEN Fail("WriteCallbackBytes")
                     ELSE /\ cbQ' = Tail(cbQ) /\ Ok
-                         /\ UNCHANGED <<filt, x, nmsg, hdr, toReport, toWriter, cur, pend, wireQ, pser, issued, written, outstanding, matched, expectRet, returned, activeCb, stopping>>)
+                         /\ UNCHANGED <<filt, rr, x, nmsg, hdr, toReport, toWriter, cur, pend, wireQ, pser, issued, written, outstanding, matched, expectRet, returned, activeCb, stopping>>)
 Recv == /\ E.ev = "recv"
         /\ IF wireQ = <<>> THEN Fail("FrameUnexpected")
            ELSE IF Mat(Head(wireQ)) # Mat(E.bytes) THEN Fail("FrameBytes")
            ELSE /\ wireQ' = Tail(wireQ) /\ Ok
-                /\ UNCHANGED <<filt, x, nmsg, hdr, toReport, toWriter, cur, pend, cbQ, pser, issued, written, outstanding, matched, expectRet, returned, activeCb, stopping>>
+                /\ UNCHANGED <<filt, rr, x, nmsg, hdr, toReport, toWriter, cur, pend, cbQ, pser, issued, written, outstanding, matched, expectRet, returned, activeCb, stopping>>
+\* logical time: the harness slept for E.ms milliseconds (only logged for deliberate stalls)
+TickEv == /\ E.ev = "tick" /\ x' = Tick(x, E.ms) /\ Ok
+          /\ UNCHANGED <<filt, rr, nmsg, hdr, toReport, toWriter, cur, pend, cbQ, wireQ, pser, issued, written, outstanding, matched, expectRet, returned, activeCb, stopping>>
+\* the writer takes a re-request (0x8003) from its own queue: numbered and written like a reply, passed to the write callback
+WReissue == /\ E.ev = "w_reissue"
+            /\ IF pend # "none" THEN Fail("WriterSkipped_" \o pend)
+               ELSE IF ~\E q \in rr : Mat(q.body) = Mat(E.body) THEN Fail("ReRequestUnexpected")
+               ELSE LET q == CHOOSE q \in rr : Mat(q.body) = Mat(E.body)
+                        fr == EncodeReply(hdr, 32771, pser, q.body) IN
+                    /\ rr' = rr \ {q} /\ cbQ' = Append(cbQ, fr) /\ wireQ' = Append(wireQ, fr) /\ pser' = (pser + 1) % 65536 /\ Ok
+                    /\ UNCHANGED <<filt, x, nmsg, hdr, toReport, toWriter, cur, pend, issued, written, outstanding, matched, expectRet, returned, activeCb, stopping>>
 \* ---- platform commands (C12)
 Ext2(fn, k, v) == [y \in DOMAIN fn \cup {k} |-> IF y = k THEN v ELSE fn[y]]
 CmdCall == /\ E.ev = "cmd_call"
            /\ issued' = Ext2(issued, E.k, [cmd |-> E.cmd, body |-> E.body, tmo |-> E.tmo]) /\ Ok
-           /\ UNCHANGED <<filt, x, nmsg, hdr, toReport, toWriter, cur, pend, cbQ, wireQ, pser, written, outstanding, matched, expectRet, returned, activeCb, stopping>>
+           /\ UNCHANGED <<filt, rr, x, nmsg, hdr, toReport, toWriter, cur, pend, cbQ, wireQ, pser, written, outstanding, matched, expectRet, returned, activeCb, stopping>>
 CmdWritten == /\ E.ev = "cmd_written"
               /\ IF pend # "none" THEN Fail("WriterSkipped_" \o pend)
                  ELSE IF ~(E.k \in DOMAIN issued /\ E.k \notin DOMAIN written) THEN Fail("CommandWrittenTwiceOrUnknown")
@@ -128,11 +140,11 @@ CmdWritten == /\ E.ev = "cmd_written"
                  ELSE /\ wireQ' = Append(wireQ, EncodeReply(hdr, issued[E.k].cmd, pser, issued[E.k].body))
                       /\ written' = Ext2(written, E.k, pser) /\ outstanding' = Ext2(outstanding, pser, E.k)
                       /\ pser' = (pser + 1) % 65536 /\ Ok
-                      /\ UNCHANGED <<filt, x, nmsg, hdr, toReport, toWriter, cur, pend, cbQ, issued, matched, expectRet, returned, activeCb, stopping>>
+                      /\ UNCHANGED <<filt, rr, x, nmsg, hdr, toReport, toWriter, cur, pend, cbQ, issued, matched, expectRet, returned, activeCb, stopping>>
 RespMatch == /\ E.ev = "resp_match"
              /\ IF ~(pend = "match" /\ Echo(cur) = E.seq) THEN Fail("ResponseMatchedToWrongCommand")
                 ELSE /\ matched' = Ext2(matched, E.seq, cur) /\ pend' = "none" /\ Ok
-                     /\ UNCHANGED <<filt, x, nmsg, hdr, toReport, toWriter, cur, cbQ, wireQ, pser, issued, written, outstanding, expectRet, returned, activeCb, stopping>>
+                     /\ UNCHANGED <<filt, rr, x, nmsg, hdr, toReport, toWriter, cur, cbQ, wireQ, pser, issued, written, outstanding, expectRet, returned, activeCb, stopping>>
 WComplete == /\ E.ev = "w_complete"
              /\ IF pend # "none" THEN Fail("WriterSkipped_" \o pend)
                 ELSE IF E.seq \notin DOMAIN outstanding
@@ -143,7 +155,7 @@ WComplete == /\ E.ev = "w_complete"
                                            echo |-> IF E.kind = "resp" THEN Echo(matched[E.seq]) ELSE -1])
                      /\ outstanding' = [s \in DOMAIN outstanding \ {E.seq} |-> outstanding[s]]
                      /\ activeCb' = activeCb \cup {E.seq} /\ Ok
-                     /\ UNCHANGED <<filt, x, nmsg, hdr, toReport, toWriter, cur, pend, cbQ, wireQ, pser, issued, written, matched, returned, stopping>>
+                     /\ UNCHANGED <<filt, rr, x, nmsg, hdr, toReport, toWriter, cur, pend, cbQ, wireQ, pser, issued, written, matched, returned, stopping>>
 CmdRet == /\ E.ev = "cmd_ret"
           /\ IF E.k \in returned \/ E.k \notin DOMAIN issued THEN Fail("CallerReturnedTwice")
              ELSE IF E.k \notin DOMAIN expectRet
@@ -151,17 +163,17 @@ CmdRet == /\ E.ev = "cmd_ret"
                            \/ (E.kind = "busy" /\ E.k \notin DOMAIN written)          \* the terminal's command queue was full
                            \/ (E.kind = "closed" /\ stopping)                         \* failed by the stopping writer
                         THEN /\ returned' = returned \cup {E.k} /\ Ok
-                             /\ UNCHANGED <<filt, x, nmsg, hdr, toReport, toWriter, cur, pend, cbQ, wireQ, pser, issued, written, outstanding, matched, expectRet, activeCb, stopping>>
+                             /\ UNCHANGED <<filt, rr, x, nmsg, hdr, toReport, toWriter, cur, pend, cbQ, wireQ, pser, issued, written, outstanding, matched, expectRet, activeCb, stopping>>
                         ELSE Fail("ReturnWithoutCompletion"))
              ELSE LET r == expectRet[E.k] IN
                   IF r.kind # E.kind THEN Fail("ReturnKind")
                   ELSE IF E.kind = "resp" /\ ~(E.echo = written[E.k] /\ r.echo = written[E.k]) THEN Fail("OwnResponse")
                   ELSE IF E.kind = "timeout" /\ ~(E.ms >= issued[E.k].tmo - 20 /\ E.ms <= issued[E.k].tmo + 2500) THEN Fail("TimeoutTiming")
                   ELSE /\ returned' = returned \cup {E.k} /\ Ok
-                       /\ UNCHANGED <<filt, x, nmsg, hdr, toReport, toWriter, cur, pend, cbQ, wireQ, pser, issued, written, outstanding, matched, expectRet, activeCb, stopping>>
+                       /\ UNCHANGED <<filt, rr, x, nmsg, hdr, toReport, toWriter, cur, pend, cbQ, wireQ, pser, issued, written, outstanding, matched, expectRet, activeCb, stopping>>
 \* the writer saw stopChan closed: from now on it answers outstanding and queued commands with an error
 WStop == /\ E.ev = "w_stop" /\ stopping' = TRUE /\ Ok
-         /\ UNCHANGED <<filt, x, nmsg, hdr, toReport, toWriter, cur, pend, cbQ, wireQ, pser, issued, written, outstanding, matched, expectRet, returned, activeCb>>
+         /\ UNCHANGED <<filt, rr, x, nmsg, hdr, toReport, toWriter, cur, pend, cbQ, wireQ, pser, issued, written, outstanding, matched, expectRet, returned, activeCb>>
 \* C09: the harness kept every *Message it was handed and compares it, after later traffic and after the
 \* connection closed, with the snapshot taken at delivery (body, raw frame, id, phone, serial, package numbers)
 Recheck == /\ E.ev = "recheck" /\ bad' = Flag(E.same, "DeliveredMessageChanged_" \o E.field) /\ diverged' = diverged /\ Same
@@ -172,15 +184,16 @@ End == /\ E.ev = "end"
                       ELSE IF pend # "none" THEN "WriterSkipped_" \o pend
                       ELSE IF cbQ # <<>> THEN "WriteCallbackMissing"
                       ELSE IF wireQ # <<>> THEN "FrameNeverArrived"
+                      ELSE IF rr # {} THEN "ReRequestNeverSent"
                       ELSE IF DOMAIN issued # returned THEN "CallerNeverReturned"
                       ELSE "ok"
           IN bad' = Flag(what = "ok", what) /\ diverged' = (diverged \/ what # "ok") /\ Same
 \* events the specification does not constrain here (registry, teardown, timers: Trace_Registry / C13)
 Other == /\ E.ev \notin {"reset", "send", "readcb", "unsupported", "w_msg", "reply_begin", "writecb", "recv",
-                         "cmd_call", "cmd_written", "resp_match", "w_complete", "cmd_ret", "end", "w_stop", "recheck"}
+                         "cmd_call", "cmd_written", "resp_match", "w_complete", "cmd_ret", "end", "w_stop", "recheck", "tick", "w_reissue"}
          /\ Ok /\ Same
 
-Step == Reset \/ Send \/ ReadCb \/ WMsg \/ ReplyBegin \/ WriteCb \/ Recv \/ CmdCall \/ CmdWritten \/ RespMatch \/ WComplete
+Step == Reset \/ TickEv \/ WReissue \/ Send \/ ReadCb \/ WMsg \/ ReplyBegin \/ WriteCb \/ Recv \/ CmdCall \/ CmdWritten \/ RespMatch \/ WComplete
         \/ CmdRet \/ End \/ WStop \/ Recheck \/ Other
 Next == l <= Len(Trace) /\ l' = l + 1 /\ Step
 Done == l = Len(Trace) + 1
